@@ -863,15 +863,34 @@ func (vc *VC) evalCall(env *Env, t CCall) Term {
 		h := vc.heapGet(env.cur, key)
 		k = vc.coerceTo(k, strings.TrimPrefix(strings.Split(h.Sort, " ")[1], ""))
 		return tBool(sel(h.S, k.S))
+	case "box":
+		// box(x): the interface value holding the string / integer x
+		x := vc.evalTerm(env, t.Args[0])
+		var tt types.Type = types.Typ[types.String]
+		if x.T != nil {
+			tt = x.T
+		}
+		return Term{S: fmt.Sprintf("(%s %d %s)", vc.boxCtor(x.Sort), vc.eng.typeTag(tt), x.S), Sort: SInt}
+	case "unboxstr":
+		x := vc.evalTerm(env, t.Args[0])
+		return Term{S: app(vc.boxFn(SStr), x.S), Sort: SStr, T: types.Typ[types.String]}
 	case "ref":
 		// ref(T, e): the reference e viewed as a *T (spec functions return untyped references)
-		id, ok := t.Args[0].(CIdent)
-		if !ok {
+		var tname string
+		switch a := t.Args[0].(type) {
+		case CIdent:
+			tname = a.Name
+		case CField:
+			if pid, ok := a.X.(CIdent); ok {
+				tname = pid.Name + "." + a.Name
+			}
+		}
+		if tname == "" {
 			vc.unsup("ref(Type, expr) expected")
 		}
-		tn := env.lookupType(id.Name)
+		tn := env.lookupType(tname)
 		if tn == nil {
-			vc.unsup("ref(): unknown type %s", id.Name)
+			vc.unsup("ref(): unknown type %s", tname)
 		}
 		x := vc.evalTerm(env, t.Args[1])
 		return Term{S: x.S, Sort: SInt, T: types.NewPointer(tn)}
